@@ -667,14 +667,15 @@ func genAllow(parent explore.Job, point int, label string, cost int) bool {
 // tier), every single deviation over the small sub-family, time-capped.
 func GenPlansC07() []nrun.Plan {
 	return []nrun.Plan{
-		{Scenario: genScenario("GG", false, false), QuickBudget: 0, ThoroughBudget: 0, Weight: 10},
+		// GG1 first: its unused share (all of it in the quick tier) rolls over to GG.
 		{Scenario: genScenario("GG1", false, true), QuickBudget: 0, ThoroughBudget: 1, Weight: 5, Allow: genAllow},
+		{Scenario: genScenario("GG", false, false), QuickBudget: 0, ThoroughBudget: 0, Weight: 10},
 	}
 }
 
 func GenPlansC08() []nrun.Plan {
 	return []nrun.Plan{
-		{Scenario: genScenario("GRG", true, false), QuickBudget: 0, ThoroughBudget: 0, Weight: 10},
 		{Scenario: genScenario("GRG1", true, true), QuickBudget: 0, ThoroughBudget: 1, Weight: 5, Allow: genAllow},
+		{Scenario: genScenario("GRG", true, false), QuickBudget: 0, ThoroughBudget: 0, Weight: 10},
 	}
 }
